@@ -328,6 +328,9 @@ class Run:
         note_prefixes: obligations of an INTERNAL specification (private data structures, the refinement loop):
         a failure means the code no longer follows that internal specification, which the property does not forbid;
         it is reported as a NOTE and recorded in the evidence, never as a VIOLATION."""
+        if self.tier != "thorough":
+            # quick tier: a stage that has not finished after 7 minutes is re-judged in slices (see below)
+            timeout = min(timeout, 420)
         recs = read_ndjson(trace_path)
         if not recs:
             self.tool_errors.append("stage %s: empty trace %s" % (stage, trace_path))
